@@ -205,6 +205,10 @@ def gen_chan(rng, tier):
             ops.append("csvfix 2")
         # configuration change + reinit: user-supplied settings must still win
         if rng.random() < 0.6:
+            if rng.random() < 0.35:
+                # the application re-applies exactly the server list the channel already has (e.g. the one the system
+                # configuration supplied): from then on it is the application's list and must survive a reinit
+                ops += ["csvfix 0", "eff 0"]
             _files(rng, ops, rp)
             ops += ["reinit 0", "eff 0"]
             if rng.random() < 0.5:
@@ -270,6 +274,7 @@ def _mon_chan(case, out):
     cur = {}          # handle -> last effective dump
     changed = False   # system configuration changed since channel 0 was initialised
     init0 = None
+    user_set = set()  # fields of channel 0 the application set through a setter after initialisation
     for line, o in zip(case, out):
         t = line.split()
         op = t[0]
@@ -322,6 +327,9 @@ def _mon_chan(case, out):
                 for k in ("servers", "sort", "mask"):
                     if k in d:
                         cur[0][k] = d[k]
+            if t[1] == "0" and d.get("st") == "ok":
+                if op in ("setcsv", "setports") and "servers" in d and T.parse_servers(d["servers"]):
+                    user_set.add("servers")
         elif op == "eff":
             e = _eff(o)
             if e is not None:
@@ -384,6 +392,10 @@ def _mon_chan(case, out):
             if e is None or src is None:
                 continue
             m = int(src["mask"], 16)
+            for f in sorted(user_set):
+                if src.get(f) != e.get(f) and not (m & (1 << GUARD[f])):
+                    bad.append(("user-wins-reinit:" + f, "%s was set by the application through a setter (mask %s does not record it) "
+                                "but reinit replaced it: %s -> %s" % (f, src["mask"], src.get(f), e.get(f))))
             for f, bit in GUARD.items():
                 bits = bit if isinstance(bit, tuple) else (bit,)
                 if any(m & (1 << b) for b in bits) and src.get(f) != e.get(f):
@@ -401,6 +413,10 @@ def _mon_chan(case, out):
                 continue
             if d.get("csv1") == "none":
                 bad.append(("csv-null", "ares_get_servers_csv returned NULL for %s" % d.get("servers")))
+            elif d.get("st") == "ok" and t[1] == "0" and "servers" in d and T.parse_servers(d["servers"]):
+                user_set.add("servers")
+            if d.get("csv1") == "none":
+                pass
             elif d.get("csv1") != d.get("csv2") or d.get("st") != "ok":
                 bad.append(("csv-fixpoint", "getCsv(setCsv(getCsv ch)) = %s, getCsv ch = %s (%s)" % (d.get("csv2"), d.get("csv1"), d.get("st"))))
         if len(bad) > 3:
